@@ -42,7 +42,7 @@ func runC35(c *Ctx) {
 				continue
 			}
 			n++
-			ok, why := boundedBy(s)
+			ok, why := c.boundedBy(s)
 			// the bound must be the message's own MaxLength()
 			okBound := false
 			for _, i := range ssau.Ifs(cm) {
